@@ -793,3 +793,792 @@ Proof.
     { unfold U2T. replace (k + 2 <=? j)%nat with false by (symmetry; apply Nat.leb_gt; lia). reflexivity. }
     rewrite HZ in HR. destruct (Nat.eqb k 0); destruct (Nat.eqb k j); lra.
 Qed.
+
+(* ------------------------------------------------------------------ matrix algebra on entry functions *)
+
+Lemma bigsum_pick2 f N a b : (a < N)%nat -> a <> b ->
+  (forall m, (m < N)%nat -> m <> a -> m <> b -> f m == 0) ->
+  bigsum f N == f a + (if (b <? N)%nat then f b else 0).
+Proof.
+  intros Ha Hab H.
+  rewrite (bigsum_ext f (fun m => (if Nat.eqb m a then f a else 0) + (if Nat.eqb m b then f b else 0))).
+  2:{ intros m Hm. destruct (Nat.eqb m a) eqn:E1; destruct (Nat.eqb m b) eqn:E2.
+      - apply Nat.eqb_eq in E1, E2. lia.
+      - apply Nat.eqb_eq in E1. subst. ring.
+      - apply Nat.eqb_eq in E2. subst. ring.
+      - apply Nat.eqb_neq in E1, E2. rewrite H by assumption. ring. }
+  rewrite bigsum_add.
+  rewrite (bigsum_single (fun m => if Nat.eqb m a then f a else 0) N a)
+    by (try lia; intros m Hm Hne; apply Nat.eqb_neq in Hne; rewrite Hne; reflexivity).
+  rewrite Nat.eqb_refl. apply Qplus_comp; [reflexivity|].
+  destruct (b <? N)%nat eqn:E.
+  - apply Nat.ltb_lt in E.
+    rewrite (bigsum_single (fun m => if Nat.eqb m b then f b else 0) N b)
+      by (try lia; intros m Hm Hne; apply Nat.eqb_neq in Hne; rewrite Hne; reflexivity).
+    rewrite Nat.eqb_refl. reflexivity.
+  - apply Nat.ltb_ge in E. apply bigsum_zero. intros m Hm.
+    destruct (Nat.eqb m b) eqn:E2; [apply Nat.eqb_eq in E2; lia | reflexivity].
+Qed.
+
+Definition meq (N : nat) (A B : mat) : Prop := forall k j, (k < N)%nat -> (j < N)%nat -> A k j == B k j.
+
+Lemma mmul_assoc N A B C k j : mmul N (mmul N A B) C k j == mmul N A (mmul N B C) k j.
+Proof.
+  unfold mmul.
+  rewrite (bigsum_ext _ (fun m => bigsum (fun i => A k i * B i m * C m j) N))
+    by (intros m Hm; rewrite <- bigsum_scal_r; reflexivity).
+  rewrite bigsum_swap. apply bigsum_ext. intros i Hi.
+  rewrite <- bigsum_scal. apply bigsum_ext. intros m Hm. ring.
+Qed.
+
+Lemma mmul_meq N A A' B B' : meq N A A' -> meq N B B' -> meq N (mmul N A B) (mmul N A' B').
+Proof.
+  intros HA HB k j Hk Hj. unfold mmul. apply bigsum_ext. intros m Hm.
+  rewrite (HA k m Hk Hm), (HB m j Hm Hj). reflexivity.
+Qed.
+
+Lemma meq_refl N A : meq N A A.
+Proof. intros k j _ _. reflexivity. Qed.
+Lemma meq_trans N A B C : meq N A B -> meq N B C -> meq N A C.
+Proof. intros H1 H2 k j Hk Hj. rewrite (H1 k j Hk Hj). apply H2; assumption. Qed.
+Lemma meq_sym N A B : meq N A B -> meq N B A.
+Proof. intros H k j Hk Hj. symmetry. apply H; assumption. Qed.
+
+Lemma mmul_I_r N A : meq N (mmul N A mI) A.
+Proof.
+  intros k j Hk Hj. unfold mmul.
+  rewrite (bigsum_single (fun m => A k m * mI m j) N j).
+  - unfold mI. rewrite Nat.eqb_refl. ring.
+  - exact Hj.
+  - intros m Hm Hne. unfold mI. apply Nat.eqb_neq in Hne. rewrite Hne. ring.
+Qed.
+Lemma mmul_I_l N A : meq N (mmul N mI A) A.
+Proof.
+  intros k j Hk Hj. unfold mmul.
+  rewrite (bigsum_single (fun m => mI k m * A m j) N k).
+  - unfold mI. rewrite Nat.eqb_refl. ring.
+  - exact Hk.
+  - intros m Hm Hne. unfold mI. replace (Nat.eqb k m) with false by (symmetry; apply Nat.eqb_neq; lia). ring.
+Qed.
+
+Lemma mpow_comm N A p : meq N (mmul N A (mpow N A p)) (mmul N (mpow N A p) A).
+Proof.
+  induction p as [|p IH]; cbn [mpow].
+  - eapply meq_trans; [apply mmul_I_r | apply meq_sym, mmul_I_l].
+  - intros k j Hk Hj. rewrite mmul_assoc.
+    apply (mmul_meq N A A _ _ (meq_refl N A) IH k j Hk Hj).
+Qed.
+
+(* p-th derivative: iterate cheb_diff_correct *)
+Fixpoint pderiv_n (p : nat) (q : list Q) : list Q := match p with O => q | S p' => pderiv (pderiv_n p' q) end.
+
+Lemma mv_mmul N A B c k : mv N (mmul N A B) c k == mv N A (mv N B c) k.
+Proof.
+  unfold mv, mmul.
+  rewrite (bigsum_ext _ (fun j => bigsum (fun m => A k m * B m j * c j) N))
+    by (intros j Hj; rewrite <- bigsum_scal_r; reflexivity).
+  rewrite bigsum_swap. apply bigsum_ext. intros m Hm.
+  rewrite <- bigsum_scal. apply bigsum_ext. intros j Hj. ring.
+Qed.
+
+Lemma pseries_ext basis c c' N : (forall j, (j < N)%nat -> c j == c' j) -> peq (pseries basis c N) (pseries basis c' N).
+Proof.
+  intros H m. rewrite !coef_pseries. apply bigsum_ext. intros j Hj. rewrite (H j Hj). reflexivity.
+Qed.
+
+Lemma mv_I N c k : (k < N)%nat -> mv N mI c k == c k.
+Proof.
+  intros Hk. unfold mv. rewrite (bigsum_single (fun j => mI k j * c j) N k).
+  - unfold mI. rewrite Nat.eqb_refl. ring.
+  - exact Hk.
+  - intros m Hm Hne. unfold mI. replace (Nat.eqb k m) with false by (symmetry; apply Nat.eqb_neq; lia). ring.
+Qed.
+
+Theorem cheb_diff_p_correct N c p :
+  peq (pderiv_n p (pseries chebT c N)) (pseries chebT (mv N (mpow N DT p) c) N).
+Proof.
+  induction p as [|p IH]; cbn [pderiv_n mpow].
+  - apply pseries_ext. intros j Hj. symmetry. apply mv_I, Hj.
+  - eapply (@Equivalence_Transitive _ _ peq_Equivalence); [apply pderiv_peq, IH|].
+    eapply (@Equivalence_Transitive _ _ peq_Equivalence); [apply cheb_diff_correct|].
+    apply pseries_ext. intros j Hj. symmetry. apply mv_mmul.
+Qed.
+
+(* ------------------------------------------------------------------ ultraspherical = dense Chebyshev after conversion *)
+
+Lemma DT_row_step m j : (1 <= m)%nat ->
+  DT m j - DT (m + 2)%nat j == if Nat.eqb j (m + 1) then 2 * Qn j else 0.
+Proof.
+  intros Hm. unfold DT.
+  replace (Nat.eqb m 0) with false by (symmetry; apply Nat.eqb_neq; lia).
+  replace (Nat.eqb (m + 2) 0) with false by (symmetry; apply Nat.eqb_neq; lia).
+  destruct (m + 2 <? j)%nat eqn:E1.
+  - apply Nat.ltb_lt in E1. replace (m <? j)%nat with true by (symmetry; apply Nat.ltb_lt; lia).
+    replace (j - m)%nat with (S (S (j - (m + 2)))) by lia. rewrite Nat.odd_succ_succ.
+    replace (Nat.eqb j (m + 1)) with false by (symmetry; apply Nat.eqb_neq; lia).
+    destruct (Nat.odd (j - (m + 2))); cbn [andb]; ring.
+  - apply Nat.ltb_ge in E1. cbn [andb].
+    destruct (Nat.eqb j (m + 1)) eqn:E2.
+    + apply Nat.eqb_eq in E2. subst j. replace (m <? m + 1)%nat with true by (symmetry; apply Nat.ltb_lt; lia).
+      replace (m + 1 - m)%nat with 1%nat by lia. cbn [Nat.odd Nat.even negb andb]. ring.
+    + apply Nat.eqb_neq in E2. destruct (m <? j)%nat eqn:E3; cbn [andb]; [|ring].
+      apply Nat.ltb_lt in E3. replace (j - m)%nat with 2%nat by lia. cbn [Nat.odd Nat.even negb]. ring.
+Qed.
+
+Lemma DT_row_step0 j : DT 0%nat j - (1 # 2) * DT 2%nat j == if Nat.eqb j 1 then Qn j else 0.
+Proof.
+  unfold DT. cbn [Nat.eqb].
+  destruct j as [|[|[|j]]]; try (vm_compute; reflexivity).
+  replace (2 <? S (S (S j)))%nat with true by (symmetry; apply Nat.ltb_lt; lia).
+  replace (0 <? S (S (S j)))%nat with true by (symmetry; apply Nat.ltb_lt; lia).
+  replace (S (S (S j)) - 0)%nat with (S (S (S j))) by lia.
+  replace (S (S (S j)) - 2)%nat with (S j) by lia. rewrite Nat.odd_succ_succ.
+  cbn [Nat.eqb]. destruct (Nat.odd (S j)); cbn [andb]; ring.
+Qed.
+
+Lemma DT_zero_below m j : (j <= m)%nat -> DT m j == 0.
+Proof. intros H. unfold DT. replace (m <? j)%nat with false by (symmetry; apply Nat.ltb_ge; lia). reflexivity. Qed.
+
+(* product with a matrix supported on the diagonal and the second upper diagonal *)
+Lemma mmul_bidiag N (S X : mat) k j : (k < N)%nat ->
+  (forall m, m <> k -> m <> (k + 2)%nat -> S k m == 0) ->
+  ((N <= k + 2)%nat -> X (k + 2)%nat j == 0) ->
+  mmul N S X k j == S k k * X k j + S k (k + 2)%nat * X (k + 2)%nat j.
+Proof.
+  intros Hk HS HX. unfold mmul.
+  rewrite (bigsum_pick2 (fun m => S k m * X m j) N k (k + 2)) by (try lia; intros m Hm H1 H2; rewrite HS by assumption; ring).
+  destruct (k + 2 <? N)%nat eqn:E; [reflexivity|].
+  apply Nat.ltb_ge in E. rewrite HX by exact E. ring.
+Qed.
+
+Definition ccU (p : nat) : Q := Qpown 2 (p - 1) * factQ (p - 1).
+
+Lemma Qpown_1 p : Qpown 1 p == 1.
+Proof. induction p as [|p IH]; cbn [Qpown]; [reflexivity|]. rewrite IH. ring. Qed.
+
+Lemma UD_entry p k j : UD 1 p k j == if Nat.eqb (k + p) j then ccU p * Qn j else 0.
+Proof.
+  unfold UD, ccU. destruct (Nat.eqb (k + p) j); [|reflexivity]. rewrite Qpown_1. field.
+Qed.
+
+Lemma UD_DT N p m j : (j < N)%nat -> mmul N (UD 1 p) DT m j == ccU p * Qn (m + p) * DT (m + p)%nat j.
+Proof.
+  intros Hj. unfold mmul.
+  destruct (m + p <? N)%nat eqn:E.
+  - apply Nat.ltb_lt in E.
+    rewrite (bigsum_single (fun i => UD 1 p m i * DT i j) N (m + p)%nat).
+    + rewrite UD_entry, Nat.eqb_refl. ring.
+    + exact E.
+    + intros i Hi Hne. rewrite UD_entry. replace (Nat.eqb (m + p) i) with false by (symmetry; apply Nat.eqb_neq; lia). ring.
+  - apply Nat.ltb_ge in E. rewrite (DT_zero_below (m + p) j) by lia.
+    rewrite bigsum_zero; [ring|]. intros i Hi. rewrite UD_entry.
+    replace (Nat.eqb (m + p) i) with false by (symmetry; apply Nat.eqb_neq; lia). ring.
+Qed.
+
+Definition UE (p : nat) : mat := match p with O => mI | _ => UD 1 p end.
+
+Lemma ccU_S p : (1 <= p)%nat -> ccU (S p) == 2 * Qn p * ccU p.
+Proof.
+  intros Hp. unfold ccU. destruct p as [|p]; [lia|].
+  replace (S (S p) - 1)%nat with (S p) by lia. replace (S p - 1)%nat with p by lia.
+  cbn [Qpown factQ]. ring.
+Qed.
+
+Lemma US_support lam k m : m <> k -> m <> (k + 2)%nat -> US lam k m == 0.
+Proof.
+  intros H1 H2. destruct lam as [|lam]; cbn [US]; unfold T2U.
+  - replace (Nat.eqb k m) with false by (symmetry; apply Nat.eqb_neq; lia).
+    replace (Nat.eqb (k + 2) m) with false by (symmetry; apply Nat.eqb_neq; lia). reflexivity.
+  - replace (Nat.eqb k m) with false by (symmetry; apply Nat.eqb_neq; lia).
+    replace (Nat.eqb (k + 2) m) with false by (symmetry; apply Nat.eqb_neq; lia). reflexivity.
+Qed.
+
+Lemma ultra_step N p : meq N (mmul N (US p) (mmul N (UE p) DT)) (UE (S p)).
+Proof.
+  intros k j Hk Hj. destruct p as [|p].
+  - (* T2U * D = D_1 *)
+    cbn [UE].
+    rewrite (mmul_meq N (US 0) (US 0) _ DT (meq_refl N _) (mmul_I_l N DT) k j Hk Hj).
+    rewrite mmul_bidiag; [| exact Hk | intros m H1 H2; apply US_support; assumption
+                          | intros HN; apply DT_zero_below; lia].
+    rewrite UD_entry. cbn [US]. unfold T2U. rewrite Nat.eqb_refl.
+    replace (Nat.eqb k (k + 2)) with false by (symmetry; apply Nat.eqb_neq; lia). rewrite Nat.eqb_refl.
+    unfold ccU. cbn [Nat.sub Qpown factQ].
+    destruct k as [|k].
+    + cbn [Nat.add]. change (Nat.eqb 0 0) with true. cbv iota. pose proof (DT_row_step0 j) as H. rewrite (Nat.eqb_sym 1 j).
+      destruct (Nat.eqb j 1); lra.
+    + change (Nat.eqb (S k) 0) with false. cbv iota. pose proof (DT_row_step (S k) j ltac:(lia)) as H.
+      rewrite (Nat.eqb_sym (S k + 1) j). destruct (Nat.eqb j (S k + 1)); lra.
+  - cbn [UE].
+    rewrite mmul_bidiag; [| exact Hk | intros m H1 H2; apply US_support; assumption
+                          | intros HN; rewrite UD_DT by exact Hj; rewrite (DT_zero_below (k + 2 + S p) j) by lia; ring].
+    rewrite !UD_DT by exact Hj. rewrite UD_entry. pose proof (ccU_S (S p) ltac:(lia)) as HC.
+    cbn [US]. rewrite Nat.eqb_refl.
+    replace (Nat.eqb k (k + 2)) with false by (symmetry; apply Nat.eqb_neq; lia). rewrite Nat.eqb_refl.
+    pose proof (DT_row_step (k + S p) j ltac:(lia)) as H.
+    replace (k + S p + 2)%nat with (k + 2 + S p)%nat in H by lia.
+    replace (k + S (S p))%nat with (k + S p + 1)%nat by lia. rewrite (Nat.eqb_sym _ j).
+    assert (E1 : Qn (S p) / Qn (S p + k) * (ccU (S p) * Qn (k + S p)) == Qn (S p) * ccU (S p)).
+    { replace (S p + k)%nat with (k + S p)%nat by lia. field. replace (k + S p)%nat with (S (k + p)) by lia. apply Qn_neq0. }
+    assert (E2 : Qn (S p) / Qn (S p + (k + 2)) * (ccU (S p) * Qn (k + 2 + S p)) == Qn (S p) * ccU (S p)).
+    { replace (S p + (k + 2))%nat with (k + 2 + S p)%nat by lia. field.
+      replace (k + 2 + S p)%nat with (S (k + 2 + p)) by lia. apply Qn_neq0. }
+    destruct (Nat.eqb j (k + S p + 1)).
+    + transitivity (Qn (S p) * ccU (S p) * (DT (k + S p)%nat j - DT (k + 2 + S p)%nat j)); [|rewrite H, HC; ring].
+      transitivity (Qn (S p) / Qn (S p + k) * (ccU (S p) * Qn (k + S p)) * DT (k + S p)%nat j
+                    - Qn (S p) / Qn (S p + (k + 2)) * (ccU (S p) * Qn (k + 2 + S p)) * DT (k + 2 + S p)%nat j); [ring|].
+      rewrite E1, E2. ring.
+    + transitivity (Qn (S p) * ccU (S p) * (DT (k + S p)%nat j - DT (k + 2 + S p)%nat j)); [|rewrite H; ring].
+      transitivity (Qn (S p) / Qn (S p + k) * (ccU (S p) * Qn (k + S p)) * DT (k + S p)%nat j
+                    - Qn (S p) / Qn (S p + (k + 2)) * (ccU (S p) * Qn (k + 2 + S p)) * DT (k + 2 + S p)%nat j); [ring|].
+      rewrite E1, E2. ring.
+Qed.
+
+(* S_{p-1} ... S_0 * D_T^p = D_p  (entries below N), every N, every p >= 1 *)
+Theorem ultra_matches_dense_E N p : meq N (mmul N (Ubc N 0 p) (mpow N DT p)) (UE p).
+Proof.
+  induction p as [|p IH]; cbn [Ubc mpow].
+  - cbn [UE]. apply mmul_I_l.
+  - cbn [Nat.add].
+    (* (S_p Ubc_p) (D D^p) = S_p ((Ubc_p D^p) D) *)
+    eapply meq_trans; [| apply ultra_step].
+    intros k j Hk Hj. rewrite mmul_assoc.
+    apply (mmul_meq N (US p) (US p) _ _ (meq_refl N _)); try assumption.
+    intros k' j' Hk' Hj'.
+    rewrite (mmul_meq N (Ubc N 0 p) (Ubc N 0 p) _ _ (meq_refl N _) (mpow_comm N DT p) k' j' Hk' Hj').
+    rewrite <- mmul_assoc.
+    apply (mmul_meq N _ _ DT DT IH (meq_refl N DT)); assumption.
+Qed.
+
+Theorem ultra_matches_dense N p : (1 <= p)%nat -> meq N (mmul N (Ubc N 0 p) (mpow N DT p)) (UD 1 p).
+Proof. intros Hp. destruct p as [|p]; [lia|]. apply (ultra_matches_dense_E N (S p)). Qed.
+
+Theorem U2T_inverse N k j : (k < N)%nat -> (j < N)%nat ->
+  mmul N U2T T2U k j == mI k j /\ mmul N T2U U2T k j == mI k j.
+Proof. intros Hk Hj. split; [exact (U2T_T2U_inverse N k j Hk Hj) | exact (T2U_U2T_inverse N k j Hk Hj)]. Qed.
+
+(* ------------------------------------------------------------------ integration matrix (reference interval) *)
+
+(* column j of the T integration matrix below row 0: entries at rows j+1 and j-1 *)
+Lemma ST_col fac m j : (1 <= m)%nat ->
+  ST fac m j == (if Nat.eqb m (j + 1) then (if Nat.eqb j 0 then 1 else 1 # 2) / Qn m else 0)
+                + (if Nat.eqb (m + 1) j then - (1 # 2) / Qn m else 0).
+Proof.
+  intros Hm. destruct m as [|m]; [lia|]. cbn [ST]. unfold T2U.
+  replace (Nat.eqb (S m) (j + 1)) with (Nat.eqb m j) by (destruct (Nat.eqb m j) eqn:E;
+    [apply Nat.eqb_eq in E; symmetry; apply Nat.eqb_eq; lia | apply Nat.eqb_neq in E; symmetry; apply Nat.eqb_neq; lia]).
+  replace (Nat.eqb (S m + 1) j) with (Nat.eqb (m + 2) j) by (f_equal; lia).
+  destruct (Nat.eqb m j) eqn:E1; destruct (Nat.eqb (m + 2) j) eqn:E2.
+  - apply Nat.eqb_eq in E1, E2. lia.
+  - apply Nat.eqb_eq in E1. subst j. field. apply Qn_neq0.
+  - field. apply Qn_neq0.
+  - field. apply Qn_neq0.
+Qed.
+
+(* D * S = I on the columns j < N - 1 (polynomials of degree < N - 1), every N *)
+Theorem cheb_int_is_right_inverse N k j : (k < N)%nat -> (j + 1 < N)%nat -> mmul N DT (ST 1) k j == mI k j.
+Proof.
+  intros Hk Hj. unfold mmul.
+  rewrite (bigsum_ext _ (fun m => (if Nat.eqb m (j + 1) then DT k m * ((if Nat.eqb j 0 then 1 else 1 # 2) / Qn m) else 0)
+                                  + (if Nat.eqb (m + 1) j then DT k m * (- (1 # 2) / Qn m) else 0))).
+  2:{ intros m Hm. destruct m as [|m].
+      - replace (Nat.eqb 0 (j + 1)) with false by (symmetry; apply Nat.eqb_neq; lia).
+        destruct (Nat.eqb (0 + 1) j); rewrite !(DT_col0 k); ring.
+      - rewrite ST_col by lia. destruct (Nat.eqb (S m) (j + 1)); destruct (Nat.eqb (S m + 1) j); ring. }
+  rewrite bigsum_add.
+  rewrite (bigsum_single (fun m => if Nat.eqb m (j + 1) then _ else 0) N (j + 1)%nat)
+    by (try lia; intros m Hm Hne; apply Nat.eqb_neq in Hne; rewrite Hne; reflexivity).
+  rewrite Nat.eqb_refl. replace (j + 1)%nat with (S j) by lia. rewrite DT_U2T.
+  destruct j as [|[|j]].
+  - rewrite (bigsum_zero (fun m => if Nat.eqb (m + 1) 0 then _ else 0))
+      by (intros m Hm; destruct (Nat.eqb (m + 1) 0) eqn:E; [apply Nat.eqb_eq in E; lia | reflexivity]).
+    unfold U2T, mI. destruct k; vm_compute; reflexivity.
+  - rewrite (bigsum_single (fun m => if Nat.eqb (m + 1) 1 then _ else 0) N 0%nat).
+    + cbn [Nat.eqb Nat.add]. rewrite (DT_col0 k). unfold U2T, mI. destruct k as [|[|k]]; vm_compute; reflexivity.
+    + lia.
+    + intros m Hm Hne. destruct (Nat.eqb (m + 1) 1) eqn:E; [apply Nat.eqb_eq in E; lia | reflexivity].
+  - rewrite (bigsum_single (fun m => if Nat.eqb (m + 1) (S (S j)) then _ else 0) N (S j)).
+    + replace (S j + 1)%nat with (S (S j)) by lia. rewrite Nat.eqb_refl. rewrite DT_U2T.
+      change (Nat.eqb (S (S j)) 0) with false. cbv iota.
+      rewrite U2T_col_step. unfold mI.
+      assert (H1 : ~ Qn (S (S (S j))) == 0) by apply Qn_neq0.
+      assert (H2 : ~ Qn (S j) == 0) by apply Qn_neq0.
+      destruct (Nat.eqb k (S (S j))); field; auto.
+    + lia.
+    + intros m Hm Hne. destruct (Nat.eqb (m + 1) (S (S j))) eqn:E; [apply Nat.eqb_eq in E; lia | reflexivity].
+Qed.
+
+(* consequence: differentiating the integrated series returns the series (degree < N - 1) *)
+Theorem cheb_int_then_diff N c : (1 <= N)%nat -> c (N - 1)%nat == 0 ->
+  peq (pderiv (pseries chebT (mv N (ST 1) c) N)) (pseries chebT c N).
+Proof.
+  intros HN Hc.
+  eapply (@Equivalence_Transitive _ _ peq_Equivalence); [apply cheb_diff_correct|].
+  apply pseries_ext. intros k Hk. rewrite <- mv_mmul. unfold mv.
+  rewrite (bigsum_ext _ (fun j => mI k j * c j)).
+  - apply (mv_I N c k Hk).
+  - intros j Hj. destruct (Nat.eq_dec j (N - 1)) as [->|Hne].
+    + rewrite Hc. ring.
+    + rewrite cheb_int_is_right_inverse by lia. reflexivity.
+Qed.
+
+(* ------------------------------------------------------------------ the evaluated tables are the matrices above *)
+
+Lemma Qnum0 q : (Qnum q =? 0)%Z = true -> q == 0.
+Proof. intros H. apply Z.eqb_eq in H. unfold Qeq. cbn. rewrite H. reflexivity. Qed.
+
+Lemma qadd_fast_eq a b : qadd_fast a b == a + b.
+Proof.
+  unfold qadd_fast. destruct (Qnum b =? 0)%Z eqn:Eb.
+  - rewrite (Qnum0 b Eb). ring.
+  - destruct (Qnum a =? 0)%Z eqn:Ea.
+    + rewrite (Qnum0 a Ea). ring.
+    + apply Qred_correct.
+Qed.
+
+Lemma vaxpy_length a x y : length (vaxpy a x y) = length y.
+Proof.
+  revert y. induction x as [|xi x IH]; intros [|yi y]; cbn [vaxpy length]; try reflexivity.
+  rewrite IH. reflexivity.
+Qed.
+
+Lemma vaxpy_nth a x y j : length x = length y -> nth j (vaxpy a x y) 0 == nth j y 0 + a * nth j x 0.
+Proof.
+  revert y j. induction x as [|xi x IH]; intros [|yi y] j Hl; cbn [length] in Hl; try discriminate.
+  - cbn [vaxpy]. destruct j; cbn [nth]; ring.
+  - cbn [vaxpy]. destruct j as [|j]; cbn [nth].
+    + destruct (Qnum xi =? 0)%Z eqn:E.
+      * rewrite (Qnum0 xi E). ring.
+      * apply qadd_fast_eq.
+    + apply IH. lia.
+Qed.
+
+Definition lstep (arow : nat -> Q) (acc : list Q) (mb : nat * list Q) : list Q :=
+  let a := arow (fst mb) in if (Qnum a =? 0)%Z then acc else vaxpy a (snd mb) acc.
+
+Lemma lstep_length arow acc mb : length (lstep arow acc mb) = length acc.
+Proof. unfold lstep. destruct (Qnum (arow (fst mb)) =? 0)%Z; [reflexivity | apply vaxpy_length]. Qed.
+
+Lemma lstep_nth arow acc mb j : length (snd mb) = length acc ->
+  nth j (lstep arow acc mb) 0 == nth j acc 0 + arow (fst mb) * nth j (snd mb) 0.
+Proof.
+  intros Hl. unfold lstep. destruct (Qnum (arow (fst mb)) =? 0)%Z eqn:E.
+  - rewrite (Qnum0 _ E). ring.
+  - apply vaxpy_nth. exact Hl.
+Qed.
+
+Fixpoint lsum (arow : nat -> Q) (l : list (nat * list Q)) (j : nat) : Q :=
+  match l with [] => 0 | mb :: l' => arow (fst mb) * nth j (snd mb) 0 + lsum arow l' j end.
+
+Lemma fold_lstep arow l : forall acc j, (forall mb, In mb l -> length (snd mb) = length acc) ->
+  length (fold_left (lstep arow) l acc) = length acc /\
+  nth j (fold_left (lstep arow) l acc) 0 == nth j acc 0 + lsum arow l j.
+Proof.
+  induction l as [|mb l IH]; intros acc j H; cbn [fold_left lsum].
+  - split; [reflexivity | ring].
+  - destruct (IH (lstep arow acc mb) j) as [IL IN].
+    { intros mb' Hin. rewrite lstep_length. apply H. right. exact Hin. }
+    split.
+    + rewrite IL. apply lstep_length.
+    + rewrite IN, lstep_nth by (apply H; left; reflexivity). ring.
+Qed.
+
+Lemma bigsum_front f n : bigsum f (S n) == f 0%nat + bigsum (fun i => f (S i)) n.
+Proof.
+  induction n as [|n IH].
+  - cbn [bigsum]. ring.
+  - cbn [bigsum] in *. rewrite IH. ring.
+Qed.
+
+Lemma lsum_combine arow j : forall n s (B : list (list Q)), length B = n ->
+  lsum arow (combine (seq s n) B) j == bigsum (fun i => arow (s + i)%nat * nth j (nth i B []) 0) n.
+Proof.
+  induction n as [|n IH]; intros s B HB.
+  - reflexivity.
+  - destruct B as [|b B]; [discriminate|]. cbn [seq combine lsum fst snd].
+    rewrite bigsum_front. rewrite (IH (S s) B) by (cbn in HB; lia).
+    rewrite Nat.add_0_r. cbn [nth]. apply Qplus_comp; [reflexivity|].
+    apply bigsum_ext. intros i Hi. replace (S s + i)%nat with (s + S i)%nat by lia. reflexivity.
+Qed.
+
+Definition wf_tab (N : nat) (t : list (list Q)) : Prop := length t = N /\ forall r, In r t -> length r = N.
+
+Lemma nth_repeat0 j n : nth j (repeat 0 n) 0 = 0.
+Proof. revert j. induction n as [|n IH]; intros [|j]; cbn; auto. Qed.
+
+Lemma lrow_spec N arow B j : wf_tab N B ->
+  length (lrow N arow B) = N /\
+  nth j (lrow N arow B) 0 == bigsum (fun m => arow m * tget B m j) N.
+Proof.
+  intros [HL HR].
+  assert (E : lrow N arow B = fold_left (lstep arow) (combine (seq 0 N) B) (repeat 0 N)) by reflexivity.
+  rewrite E.
+  destruct (fold_lstep arow (combine (seq 0 N) B) (repeat 0 N) j) as [IL IN].
+  { intros mb Hin. rewrite repeat_length. destruct mb as [m b]. apply in_combine_r in Hin. apply HR, Hin. }
+  split.
+  - rewrite IL. apply repeat_length.
+  - rewrite IN, nth_repeat0, lsum_combine by exact HL. unfold tget. cbn [Nat.add]. ring.
+Qed.
+
+Lemma lmul_spec N A B : wf_tab N B ->
+  wf_tab N (lmul N A B) /\ meq N (tget (lmul N A B)) (mmul N A (tget B)).
+Proof.
+  intros HB. unfold lmul. split; [split|].
+  - rewrite map_length, seq_length. reflexivity.
+  - intros r Hin. apply in_map_iff in Hin. destruct Hin as [k [<- _]]. apply (lrow_spec N (A k) B 0%nat HB).
+  - intros k j Hk Hj. unfold tget.
+    rewrite (nth_indep _ [] (lrow N (A 0%nat) B)) by (rewrite map_length, seq_length; exact Hk).
+    rewrite (map_nth (fun k => lrow N (A k) B) (seq 0 N) 0%nat k), seq_nth by exact Hk. cbn [Nat.add].
+    apply (lrow_spec N (A k) B j HB).
+Qed.
+
+Lemma tab_wf N M : wf_tab N (tab N M).
+Proof.
+  unfold tab. split.
+  - rewrite map_length, seq_length. reflexivity.
+  - intros r Hin. apply in_map_iff in Hin. destruct Hin as [k [<- _]]. rewrite map_length, seq_length. reflexivity.
+Qed.
+
+Lemma tget_tab N M : meq N (tget (tab N M)) M.
+Proof.
+  intros k j Hk Hj. unfold tget, tab.
+  rewrite (nth_indep _ [] (map (fun j => M 0%nat j) (seq 0 N))) by (rewrite map_length, seq_length; exact Hk).
+  rewrite (map_nth (fun k => map (fun j => M k j) (seq 0 N)) (seq 0 N) 0%nat k), seq_nth by exact Hk.
+  rewrite (nth_indep _ 0 (M (0 + k)%nat 0%nat)) by (rewrite map_length, seq_length; exact Hj).
+  rewrite (map_nth (fun j => M (0 + k)%nat j) (seq 0 N) 0%nat j), seq_nth by exact Hj. reflexivity.
+Qed.
+
+Lemma lpow_spec N A p : wf_tab N (lpow N A p) /\ meq N (tget (lpow N A p)) (mpow N A p).
+Proof.
+  induction p as [|p [IW IM]]; cbn [lpow mpow].
+  - split; [apply tab_wf | apply tget_tab].
+  - destruct (lmul_spec N A (lpow N A p) IW) as [W M]. split; [exact W|].
+    eapply meq_trans; [exact M|]. apply mmul_meq; [apply meq_refl | exact IM].
+Qed.
+
+Lemma tget_map2 (f : Q -> Q) t k j N : wf_tab N t -> (k < N)%nat -> (j < N)%nat ->
+  tget (map (map f) t) k j = f (tget t k j).
+Proof.
+  intros [HL HR] Hk Hj. unfold tget.
+  rewrite (nth_indep _ [] (map f [])) by (rewrite map_length; lia).
+  rewrite (map_nth (map f) t [] k).
+  assert (Hr : length (nth k t []) = N) by (apply HR, nth_In; lia).
+  rewrite (nth_indep _ 0 (f 0)) by (rewrite map_length; lia).
+  rewrite (map_nth f (nth k t []) 0 j). reflexivity.
+Qed.
+
+(* the tables the kernel compares with the live code are the matrices of the theorems *)
+Theorem DTp_tab_correct N fac p : meq N (tget (DTp_tab N fac p)) (DTp N fac p).
+Proof.
+  intros k j Hk Hj. unfold DTp_tab, DTp. destruct (lpow_spec N DT p) as [W M].
+  rewrite (tget_map2 _ _ k j N W Hk Hj). rewrite (M k j Hk Hj). unfold Qdiv. reflexivity.
+Qed.
+
+Lemma Ubc_tab_spec N lo d : wf_tab N (Ubc_tab N lo d) /\ meq N (tget (Ubc_tab N lo d)) (Ubc N lo d).
+Proof.
+  induction d as [|d [IW IM]]; cbn [Ubc_tab Ubc].
+  - split; [apply tab_wf | apply tget_tab].
+  - destruct (lmul_spec N (US (lo + d)) (Ubc_tab N lo d) IW) as [W M]. split; [exact W|].
+    eapply meq_trans; [exact M|]. apply mmul_meq; [apply meq_refl | exact IM].
+Qed.
+Theorem Ubc_tab_correct N lo d : meq N (tget (Ubc_tab N lo d)) (Ubc N lo d).
+Proof. apply Ubc_tab_spec. Qed.
+
+Lemma Ubc_inv_tab_spec N d : forall lo, wf_tab N (Ubc_inv_tab N lo d) /\ meq N (tget (Ubc_inv_tab N lo d)) (Ubc_inv N lo d).
+Proof.
+  induction d as [|d IH]; intros lo; cbn [Ubc_inv_tab Ubc_inv].
+  - split; [apply tab_wf | apply tget_tab].
+  - destruct (IH (S lo)) as [IW IM].
+    destruct (lmul_spec N (USinv lo) (Ubc_inv_tab N (S lo) d) IW) as [W M]. split; [exact W|].
+    eapply meq_trans; [exact M|]. apply mmul_meq; [apply meq_refl | exact IM].
+Qed.
+Theorem Ubc_inv_tab_correct N lo d : meq N (tget (Ubc_inv_tab N lo d)) (Ubc_inv N lo d).
+Proof. apply Ubc_inv_tab_spec. Qed.
+
+(* shift-based dyadic alignment = Base.Dyadic alignment *)
+Lemma falign_eq a b : falign a b = dalign a b.
+Proof.
+  unfold falign, dalign. rewrite !Z.shiftl_mul_pow2 by lia. reflexivity.
+Qed.
+Lemma fadd_eq a b : fadd a b = dadd a b.
+Proof. unfold fadd, dadd. rewrite falign_eq. reflexivity. Qed.
+Lemma fsub_eq a b : fsub a b = dsub a b.
+Proof. unfold fsub, dsub. apply fadd_eq. Qed.
+Lemma fleb_eq a b : fleb a b = dleb a b.
+Proof. unfold fleb, dleb. rewrite falign_eq. reflexivity. Qed.
+Lemma fltb_eq a b : fltb a b = dltb a b.
+Proof. unfold fltb, dltb. rewrite falign_eq. reflexivity. Qed.
+
+(* ------------------------------------------------------------------ inverse of S_lam (backward basis change) *)
+
+Lemma USinv_zero lam k j : (j < k)%nat -> USinv lam k j == 0.
+Proof.
+  intros H. destruct lam; cbn [USinv]; unfold U2T;
+    replace (k <=? j)%nat with false by (symmetry; apply Nat.leb_gt; lia); reflexivity.
+Qed.
+
+Lemma USinv_row_step lam k j : (1 <= lam)%nat ->
+  USinv lam k j / Qn (lam + k) - USinv lam (k + 2)%nat j / Qn (lam + (k + 2))
+  == if Nat.eqb k j then 1 / Qn lam else 0.
+Proof.
+  intros Hl. destruct lam as [|lam]; [lia|]. cbn [USinv].
+  assert (H1 : ~ Qn (S lam + k) == 0) by (replace (S lam + k)%nat with (S (lam + k)) by lia; apply Qn_neq0).
+  assert (H2 : ~ Qn (S lam + (k + 2)) == 0) by (replace (S lam + (k + 2))%nat with (S (lam + (k + 2))) by lia; apply Qn_neq0).
+  assert (H3 : ~ Qn (S lam) == 0) by apply Qn_neq0.
+  destruct (Nat.eqb k j) eqn:E.
+  - apply Nat.eqb_eq in E. subst j. rewrite Nat.leb_refl, Nat.sub_diag.
+    replace (k + 2 <=? k)%nat with false by (symmetry; apply Nat.leb_gt; lia).
+    cbn [Nat.even andb]. field. auto.
+  - apply Nat.eqb_neq in E.
+    destruct (k + 2 <=? j)%nat eqn:E2.
+    + apply Nat.leb_le in E2. replace (k <=? j)%nat with true by (symmetry; apply Nat.leb_le; lia).
+      replace (j - k)%nat with (S (S (j - (k + 2)))) by lia. cbn [Nat.even andb].
+      destruct (Nat.even (j - (k + 2))); field; auto.
+    + apply Nat.leb_gt in E2. cbn [andb].
+      destruct (k <=? j)%nat eqn:E3; cbn [andb].
+      * apply Nat.leb_le in E3. replace (j - k)%nat with 1%nat by lia. cbn [Nat.even]. field; auto.
+      * field; auto.
+Qed.
+
+(* S_lam * S_lam^-1 = I, every lam, every N *)
+Theorem US_USinv N lam : meq N (mmul N (US lam) (USinv lam)) mI.
+Proof.
+  destruct lam as [|lam].
+  - intros k j Hk Hj. apply (T2U_U2T_inverse N k j Hk Hj).
+  - intros k j Hk Hj.
+    rewrite mmul_bidiag; [| exact Hk | intros m H1 H2; apply US_support; assumption
+                          | intros HN; apply USinv_zero; lia].
+    pose proof (USinv_row_step (S lam) k j ltac:(lia)) as H.
+    cbn [US]. rewrite Nat.eqb_refl.
+    replace (Nat.eqb k (k + 2)) with false by (symmetry; apply Nat.eqb_neq; lia). rewrite Nat.eqb_refl.
+    unfold mI. assert (H3 : ~ Qn (S lam) == 0) by apply Qn_neq0.
+    transitivity (Qn (S lam) * (USinv (S lam) k j / Qn (S lam + k) - USinv (S lam) (k + 2)%nat j / Qn (S lam + (k + 2)))).
+    + unfold Qdiv. ring.
+    + rewrite H. destruct (Nat.eqb k j); field; auto.
+Qed.
+
+Lemma mmul_assoc_meq N A B C : meq N (mmul N (mmul N A B) C) (mmul N A (mmul N B C)).
+Proof. intros k j _ _. apply mmul_assoc. Qed.
+
+Lemma Ubc_bottom N d : forall lo, meq N (Ubc N lo (S d)) (mmul N (Ubc N (S lo) d) (US lo)).
+Proof.
+  induction d as [|d IH]; intros lo.
+  - cbn [Ubc]. rewrite Nat.add_0_r.
+    eapply meq_trans; [apply mmul_I_r | apply meq_sym, mmul_I_l].
+  - change (Ubc N lo (S (S d))) with (mmul N (US (lo + S d)) (Ubc N lo (S d))).
+    change (Ubc N (S lo) (S d)) with (mmul N (US (S lo + d)) (Ubc N (S lo) d)).
+    replace (S lo + d)%nat with (lo + S d)%nat by lia.
+    eapply meq_trans; [apply mmul_meq; [apply meq_refl | apply IH]|].
+    apply meq_sym, mmul_assoc_meq.
+Qed.
+
+(* forward and backward basis changes are mutually inverse: (S_{lo+d-1} ... S_lo) (S_lo^-1 ... S_{lo+d-1}^-1) = I *)
+Theorem Ubc_Ubc_inv N d : forall lo, meq N (mmul N (Ubc N lo d) (Ubc_inv N lo d)) mI.
+Proof.
+  induction d as [|d IH]; intros lo.
+  - cbn [Ubc Ubc_inv]. apply mmul_I_l.
+  - change (Ubc_inv N lo (S d)) with (mmul N (USinv lo) (Ubc_inv N (S lo) d)).
+    eapply meq_trans; [apply mmul_meq; [apply Ubc_bottom | apply meq_refl]|].
+    eapply meq_trans; [apply mmul_assoc_meq|].
+    eapply meq_trans; [| apply (IH (S lo))].
+    apply mmul_meq; [apply meq_refl|].
+    eapply meq_trans; [apply meq_sym, mmul_assoc_meq|].
+    eapply meq_trans; [apply mmul_meq; [apply US_USinv | apply meq_refl]|].
+    apply mmul_I_l.
+Qed.
+
+(* ------------------------------------------------------------------ Fourier *)
+
+(* fftfreq ordering: the wavenumber of index j is the representative of j mod N in [-N/2, N/2) *)
+Theorem wavenum_spec N j : (j < N)%nat ->
+  ((wavenum N j - Z.of_nat j) mod Z.of_nat N = 0 /\ - Z.of_nat N <= 2 * wavenum N j < Z.of_nat N)%Z.
+Proof.
+  intros Hj. unfold wavenum. destruct (2 * j <? N)%nat eqn:E.
+  - apply Nat.ltb_lt in E. split; [rewrite Z.sub_diag; apply Z.mod_0_l; lia | lia].
+  - apply Nat.ltb_ge in E. split; [|lia].
+    replace (Z.of_nat j - Z.of_nat N - Z.of_nat j)%Z with (-1 * Z.of_nat N)%Z by lia.
+    apply Z.mod_mul. lia.
+Qed.
+
+Lemma wavenum_unique N j k : (j < N)%nat ->
+  ((k - Z.of_nat j) mod Z.of_nat N = 0 -> - Z.of_nat N <= 2 * k < Z.of_nat N -> k = wavenum N j)%Z.
+Proof.
+  intros Hj Hm Hr. destruct (wavenum_spec N j Hj) as [Hm' Hr'].
+  apply Z.mod_divide in Hm; [|lia]. apply Z.mod_divide in Hm'; [|lia].
+  destruct Hm as [a Ha]. destruct Hm' as [b Hb].
+  destruct (Z.eq_dec a b) as [->|Hne]; [lia|].
+  exfalso. assert (Hc : (a - b >= 1 \/ a - b <= -1)%Z) by lia.
+  assert (Hd : (k - wavenum N j = (a - b) * Z.of_nat N)%Z) by lia.
+  destruct Hc; nia.
+Qed.
+
+Lemma wavenum_nyquist N : Nat.even N = true -> (0 < N)%nat -> wavenum N (nyquist N) = (- Z.of_nat (N / 2))%Z.
+Proof.
+  intros He HN. apply Nat.even_spec in He. destruct He as [h Hh]. unfold wavenum, nyquist. subst N.
+  replace (2 * h / 2)%nat with h by (rewrite Nat.mul_comm, Nat.div_mul; lia).
+  replace (2 * h <? 2 * h)%nat with false by (symmetry; apply Nat.ltb_ge; lia). lia.
+Qed.
+
+Definition ceq (a b : C) : Prop := fst a == fst b /\ snd a == snd b.
+
+Lemma cmul_i_k k (z : C) : ceq (cmul (0, k) z) (- k * snd z, k * fst z).
+Proof. unfold ceq, cmul. cbn [fst snd]. split; ring. Qed.
+
+(* (i k)^p cycles through k^p * (1, i, -1, -i) *)
+Theorem FD_power k p : ceq (cpow (0, k) p)
+  (match (p mod 4)%nat with 0%nat => (Qpown k p, 0) | 1%nat => (0, Qpown k p) | 2%nat => (- Qpown k p, 0) | _ => (0, - Qpown k p) end).
+Proof.
+  induction p as [|p IH].
+  - cbn. split; reflexivity.
+  - cbn [cpow Qpown]. destruct IH as [I1 I2]. unfold ceq, cmul. cbn [fst snd]. rewrite I1, I2.
+    assert (Hm : (S p mod 4 = S (p mod 4) /\ p mod 4 < 3)%nat \/ (S p mod 4 = 0 /\ p mod 4 = 3)%nat).
+    { pose proof (Nat.div_mod p 4 ltac:(lia)) as H1. pose proof (Nat.mod_upper_bound p 4 ltac:(lia)) as H2.
+      pose proof (Nat.div_mod (S p) 4 ltac:(lia)) as H3. pose proof (Nat.mod_upper_bound (S p) 4 ltac:(lia)) as H4. lia. }
+    destruct Hm as [[-> Hlt]|[-> ->]].
+    + destruct (p mod 4)%nat as [|[|[|q]]]; cbn [fst snd]; try lia; split; ring.
+    + cbn [fst snd]. split; ring.
+Qed.
+
+(* integration inverts differentiation on every non-constant mode *)
+Theorem FS_FD_inverse k p : ~ k == 0 -> ceq (cmul (cpow (cinv (0, k)) p) (cpow (0, k) p)) (1, 0).
+Proof.
+  intros Hk. induction p as [|p [I1 I2]].
+  - cbn. split; reflexivity.
+  - cbn [cpow]. unfold ceq, cmul, cinv in *. cbn [fst snd] in *.
+    set (a := fst (cpow (0 / (0 * 0 + k * k), - k / (0 * 0 + k * k)) p)) in *.
+    set (b := snd (cpow (0 / (0 * 0 + k * k), - k / (0 * 0 + k * k)) p)) in *.
+    set (c := fst (cpow (0, k) p)) in *. set (d := snd (cpow (0, k) p)) in *.
+    split.
+    + transitivity (a * c - b * d); [field; exact Hk | exact I1].
+    + transitivity (a * d + b * c); [field; exact Hk | exact I2].
+Qed.
+
+(* ------------------------------------------------------------------ Gegenbauer bases: validated for degree < 64 *)
+
+Definition peqb (p q : list Q) : bool :=
+  forallb (fun m => Qeq_bool (coef p m) (coef q m)) (seq 0 (Nat.max (length p) (length q))).
+
+Lemma coef_beyond p m : (length p <= m)%nat -> coef p m = 0.
+Proof. intros H. unfold coef. apply nth_overflow. exact H. Qed.
+
+Lemma peqb_sound p q : peqb p q = true -> peq p q.
+Proof.
+  intros H m. unfold peqb in H. rewrite forallb_forall in H.
+  destruct (Nat.lt_ge_cases m (Nat.max (length p) (length q))) as [Hlt|Hge].
+  - apply Qeq_bool_iff. apply H. apply in_seq. lia.
+  - rewrite !coef_beyond by lia. reflexivity.
+Qed.
+
+(* d^p/dx^p T_j in the C^(p) basis: column j of the ultraspherical D_p *)
+Definition ultra_col (p j : nat) : list Q :=
+  if (p <=? j)%nat then pscale (ccU p * Qn j) (geg p (j - p)) else [].
+Definition ultra_col_ok (p j : nat) : bool := peqb (pderiv_n p (chebT j)) (ultra_col p j).
+(* C^(lam)_j in the C^(lam+1) basis: column j of S_lam *)
+Definition S_col (lam j : nat) : list Q :=
+  psub (pscale (Qn lam / Qn (lam + j)) (geg (S lam) j))
+       (if (2 <=? j)%nat then pscale (Qn lam / Qn (lam + j)) (geg (S lam) (j - 2)) else []).
+Definition S_col_ok (lam j : nat) : bool := peqb (geg lam j) (S_col lam j).
+Definition geg1_ok (j : nat) : bool := peqb (geg 1 j) (chebU j).
+
+Lemma gegenbauer_checked_64 :
+  forallb (fun j => ultra_col_ok 1 j && ultra_col_ok 2 j && ultra_col_ok 3 j && S_col_ok 1 j && S_col_ok 2 j && geg1_ok j)
+          (seq 0 64) = true.
+Proof. vm_compute. reflexivity. Qed.
+
+Lemma checked_64 j : (j < 64)%nat ->
+  ultra_col_ok 1 j = true /\ ultra_col_ok 2 j = true /\ ultra_col_ok 3 j = true /\
+  S_col_ok 1 j = true /\ S_col_ok 2 j = true /\ geg1_ok j = true.
+Proof.
+  intros Hj. pose proof gegenbauer_checked_64 as H. rewrite forallb_forall in H.
+  specialize (H j ltac:(apply in_seq; lia)). repeat (apply andb_prop in H; destruct H as [H ?]). tauto.
+Qed.
+
+Lemma pderiv_n_peq p q1 q2 : peq q1 q2 -> peq (pderiv_n p q1) (pderiv_n p q2).
+Proof. intros H. induction p as [|p IH]; cbn [pderiv_n]; [exact H | apply pderiv_peq, IH]. Qed.
+
+Lemma pderiv_pseries basis c n : peq (pderiv (pseries basis c n)) (pseries (fun j => pderiv (basis j)) c n).
+Proof.
+  intros m. rewrite coef_pderiv, !coef_pseries, <- bigsum_scal. apply bigsum_ext. intros j Hj.
+  rewrite coef_pderiv. ring.
+Qed.
+
+Lemma pderiv_n_pseries p basis c n :
+  peq (pderiv_n p (pseries basis c n)) (pseries (fun j => pderiv_n p (basis j)) c n).
+Proof.
+  induction p as [|p IH]; cbn [pderiv_n].
+  - reflexivity.
+  - eapply (@Equivalence_Transitive _ _ peq_Equivalence); [apply pderiv_peq, IH|]. apply pderiv_pseries.
+Qed.
+
+Lemma pseries_basis_ext b1 b2 c N : (forall j, (j < N)%nat -> peq (b1 j) (b2 j)) -> peq (pseries b1 c N) (pseries b2 c N).
+Proof.
+  intros H m. rewrite !coef_pseries. apply bigsum_ext. intros j Hj. rewrite (H j Hj m). reflexivity.
+Qed.
+
+Lemma ultra_col_sem N p j : (j < N)%nat -> forall m,
+  coef (ultra_col p j) m == bigsum (fun k => UD 1 p k j * coef (geg p k) m) N.
+Proof.
+  intros Hj m. unfold ultra_col. destruct (p <=? j)%nat eqn:E.
+  - apply Nat.leb_le in E.
+    rewrite (bigsum_single (fun k => UD 1 p k j * coef (geg p k) m) N (j - p)%nat).
+    + rewrite UD_entry. replace (j - p + p)%nat with j by lia. rewrite Nat.eqb_refl, coef_pscale. reflexivity.
+    + lia.
+    + intros k Hk Hne. rewrite UD_entry. replace (Nat.eqb (k + p) j) with false by (symmetry; apply Nat.eqb_neq; lia). ring.
+  - apply Nat.leb_gt in E. rewrite coef_nil. symmetry. apply bigsum_zero. intros k Hk.
+    rewrite UD_entry. replace (Nat.eqb (k + p) j) with false by (symmetry; apply Nat.eqb_neq; lia). ring.
+Qed.
+
+(* ultraspherical differentiation: the p-th derivative of a T series in the C^(p) basis, N <= 64, p = 1, 2, 3 *)
+Theorem ultra_diff_correct_upto64 N p c : (N <= 64)%nat -> (p = 1 \/ p = 2 \/ p = 3)%nat ->
+  peq (pderiv_n p (pseries chebT c N)) (pseries (geg p) (mv N (UD 1 p) c) N).
+Proof.
+  intros HN Hp.
+  eapply (@Equivalence_Transitive _ _ peq_Equivalence); [apply pderiv_n_pseries|].
+  apply (series_convert (fun j => pderiv_n p (chebT j)) (geg p) (UD 1 p) N).
+  intros j Hj m. rewrite <- (ultra_col_sem N p j Hj m).
+  destruct (checked_64 j ltac:(lia)) as (H1 & H2 & H3 & _).
+  destruct Hp as [-> | [-> | ->]]; apply peqb_sound; assumption.
+Qed.
+
+Lemma S_col_sem N lam j : (1 <= lam)%nat -> (j < N)%nat -> forall m,
+  coef (S_col lam j) m == bigsum (fun k => US lam k j * coef (geg (S lam) k) m) N.
+Proof.
+  intros Hl Hj m. unfold S_col. destruct lam as [|lam]; [lia|]. rewrite coef_psub, coef_pscale.
+  rewrite (bigsum_ext _ (fun k => (if Nat.eqb k j then Qn (S lam) / Qn (S lam + j) * coef (geg (S (S lam)) k) m else 0)
+                                  + (if Nat.eqb (k + 2) j then - (Qn (S lam) / Qn (S lam + j)) * coef (geg (S (S lam)) k) m else 0))).
+  2:{ intros k Hk. cbn [US]. destruct (Nat.eqb k j) eqn:E1; destruct (Nat.eqb (k + 2) j) eqn:E2; try ring.
+      - apply Nat.eqb_eq in E1, E2. lia.
+      - apply Nat.eqb_eq in E1. subst k. ring. }
+  rewrite bigsum_add.
+  rewrite (bigsum_single (fun k => if Nat.eqb k j then _ else 0) N j)
+    by (try lia; intros k Hk Hne; apply Nat.eqb_neq in Hne; rewrite Hne; reflexivity).
+  rewrite Nat.eqb_refl. apply Qplus_comp; [reflexivity|].
+  destruct (2 <=? j)%nat eqn:E.
+  - apply Nat.leb_le in E.
+    rewrite (bigsum_single (fun k => if Nat.eqb (k + 2) j then _ else 0) N (j - 2)%nat).
+    + replace (j - 2 + 2)%nat with j by lia. rewrite Nat.eqb_refl, coef_pscale. ring.
+    + lia.
+    + intros k Hk Hne. destruct (Nat.eqb (k + 2) j) eqn:E2; [apply Nat.eqb_eq in E2; lia | reflexivity].
+  - apply Nat.leb_gt in E. rewrite coef_nil.
+    rewrite (bigsum_zero (fun k => if Nat.eqb (k + 2) j then _ else 0)); [ring|].
+    intros k Hk. destruct (Nat.eqb (k + 2) j) eqn:E2; [apply Nat.eqb_eq in E2; lia | reflexivity].
+Qed.
+
+(* S_lam converts a C^(lam) series into the C^(lam+1) basis, N <= 64, lam = 1, 2 (lam = 0 is T2U_correct, all N) *)
+Theorem ultra_S_correct_upto64 N lam c : (N <= 64)%nat -> (lam = 1 \/ lam = 2)%nat ->
+  peq (pseries (geg lam) c N) (pseries (geg (S lam)) (mv N (US lam) c) N).
+Proof.
+  intros HN Hl. apply series_convert. intros j Hj m.
+  rewrite <- (S_col_sem N lam j ltac:(lia) Hj m).
+  destruct (checked_64 j ltac:(lia)) as (_ & _ & _ & H1 & H2 & _).
+  destruct Hl as [-> | ->]; apply peqb_sound; assumption.
+Qed.
+
+Theorem geg1_is_chebU_upto64 j : (j < 64)%nat -> peq (geg 1 j) (chebU j).
+Proof. intros Hj. apply peqb_sound. apply (checked_64 j Hj). Qed.
+
+Theorem tables_are_model N :
+  (forall fac p, meq N (tget (DTp_tab N fac p)) (DTp N fac p)) /\
+  (forall lo d, meq N (tget (Ubc_tab N lo d)) (Ubc N lo d)) /\
+  (forall lo d, meq N (tget (Ubc_inv_tab N lo d)) (Ubc_inv N lo d)).
+Proof. split; [|split]; intros; [apply DTp_tab_correct | apply Ubc_tab_correct | apply Ubc_inv_tab_correct]. Qed.
